@@ -32,8 +32,11 @@ func (c *DnsController) backgroundRefresh(cacheKey string, dnsMessage *dnsmessag
 	// Ensure refreshing flag is cleared even if refresh fails
 	// This prevents permanent deadlock if background refresh fails
 	defer func() {
-		if cache := c.LookupDnsRespCache(cacheKey, false); cache != nil {
-			if cache.IsRefreshing() {
+		// Read the entry without the expiry check: LookupDnsRespCache evicts an
+		// expired entry, which would drop the stale answer (and leave its
+		// refreshing flag set) whenever the refresh failed.
+		if val, ok := c.dnsCache.Load(cacheKey); ok {
+			if cache, ok := val.(*DnsCache); ok && cache.IsRefreshing() {
 				cache.MarkRefreshed()
 			}
 		}
